@@ -85,6 +85,19 @@ structure Facts (P : Program) (H : List FuncHints) : Prop where
   side : ∀ (fi : Nat) f h, P.funcs[fi]? = some f → H[fi]? = some h → ∀ b n i, InstrAt f b n i →
     Side.sInstr { prog := P, hints := H, f := f, h := h } (Side.defSets f) (blockOffsets f.blocks 0) b n i = []
 
+theorem forceNat_eq {α} (n : Nat) (k : Nat → α) : Side.forceNat n k = k n := by
+  cases n <;> rfl
+
+theorem forceList_eq {α} : ∀ (xs : List Nat) (k : List Nat → α), Side.forceList xs k = k xs := by
+  intro xs
+  induction xs with
+  | nil => intro k; rfl
+  | cons x xs ih => intro k; simp [Side.forceList, forceNat_eq, ih]
+
+theorem sideSelector_eq (P : Program) (H : List FuncHints) (fi : Nat) (f : Func) (h : FuncHints) :
+    Side.sideSelector P H fi f h = some (Side.sideCheck P H f h (Side.defSets f) (blockOffsets f.blocks 0)) := by
+  simp [Side.sideSelector, forceList_eq]
+
 theorem facts_of_ok {P : Program} {H : List FuncHints} (h : provOkSimple P H = true) : Facts P H := by
   simp only [provOkSimple, provSideOk, Bool.and_eq_true] at h
   have hp := allClean_spec _ _ _ _ h.1
@@ -110,8 +123,8 @@ theorem facts_of_ok {P : Program} {H : List FuncHints} (h : provOkSimple P H = t
     simpa using this
   · intro fi f hf
     obtain ⟨h', hh', hc⟩ := hs fi f hf
-    have := hc _ rfl
-    simp only [FuncCheck.clean, Bool.and_eq_true, List.isEmpty_iff] at this
+    have := hc _ (sideSelector_eq P H (0 + fi) f h')
+    simp only [Side.sideCheck, FuncCheck.clean, Bool.and_eq_true, List.isEmpty_iff] at this
     have h1 := this.1
     split at h1
     · rename_i hc2
@@ -121,8 +134,8 @@ theorem facts_of_ok {P : Program} {H : List FuncHints} (h : provOkSimple P H = t
   · intro fi f h' hf hh'
     obtain ⟨h'', hh'', hc⟩ := hs fi f hf
     rw [hh'] at hh''; cases hh''
-    have := hc _ rfl
-    simp only [FuncCheck.clean, Bool.and_eq_true, List.isEmpty_iff] at this
+    have := hc _ (sideSelector_eq P H (0 + fi) f h')
+    simp only [Side.sideCheck, FuncCheck.clean, Bool.and_eq_true, List.isEmpty_iff] at this
     have h1 := this.1
     split at h1
     · rename_i hc2
@@ -132,8 +145,8 @@ theorem facts_of_ok {P : Program} {H : List FuncHints} (h : provOkSimple P H = t
   · intro fi f h' hf hh' b n i ⟨bl, hb, hi⟩
     obtain ⟨h'', hh'', hc⟩ := hs fi f hf
     rw [hh'] at hh''; cases hh''
-    have := hc _ rfl
-    simp only [FuncCheck.clean, Bool.and_eq_true] at this
+    have := hc _ (sideSelector_eq P H (0 + fi) f h')
+    simp only [Side.sideCheck, FuncCheck.clean, Bool.and_eq_true] at this
     have := cleanB_spec _ _ _ this.2 b bl hb n i hi
     simpa using this
 
